@@ -11,7 +11,9 @@ import (
 	"fmt"
 	"io"
 	"math/rand"
+	"net"
 	"os"
+	"regexp"
 	"strconv"
 	"strings"
 	"sync/atomic"
@@ -958,10 +960,12 @@ func (c *ctx) c14pipeHandshakes() {
 // (C) sequences of transfers through ONE relay instance
 
 type c14ev struct {
-	kind  byte   // 'I' client chunk, 'O' server chunk, 'T' server chunk that is a fresh trigger, 'E' handshake end
-	data  []byte // I, O, T
-	retag string // T
-	conf  bool   // E: confirm the model is told
+	kind   byte   // 'I' client chunk, 'O' server chunk, 'T' server chunk that is a fresh trigger, 'E' handshake end,
+	              // 'A' the handshake has decoded the ACT (no harness action), 'U' / 'V' chunk on the client's / server's tunnel connection
+	data   []byte // I, O, T, U, V
+	retag  string // T
+	conf   bool   // E: confirm the model is told
+	tun    bool   // A: the ACT's tunnel field; T: the trigger announces a real tunnel port (set up by the harness)
 }
 
 func (e c14ev) arg() string {
@@ -972,6 +976,15 @@ func (e c14ev) arg() string {
 		return "O0" + hx(e.data)
 	case 'T':
 		return "O1" + hx(e.data)
+	case 'U':
+		return "U" + hx(e.data)
+	case 'V':
+		return "V" + hx(e.data)
+	case 'A':
+		if e.tun {
+			return "A1"
+		}
+		return "A0"
 	}
 	if e.conf {
 		return "E1"
@@ -991,7 +1004,7 @@ func c14hint(st int32, e c14ev) int32 {
 		if st == 2 && (c14hasMarker(e.data) || (len(e.data) == 1 && e.data[0] == 3)) {
 			return 0
 		}
-	case 'O':
+	case 'O', 'U', 'V':
 		if st == 2 && c14hasMarker(e.data) {
 			return 0
 		}
@@ -1010,6 +1023,7 @@ type c14transfer struct {
 	evs     []c14ev
 	endKind string // how this transfer ended at STREAM level ("" = it did not end)
 	split   bool   // the end marker straddles two chunks
+	tunnel  string // "" plain; "claim": the ACT claimed a tunnel on the main channel; "real": a loopback tunnel was used
 }
 
 func c14b64ish(rng *rand.Rand, n int) []byte {
@@ -1040,9 +1054,14 @@ func c14genTransfer(rng *rand.Rand, kind string, split bool) c14transfer {
 	act := &c14WA{lang: c14s("go"), version: c14s("1.1.8"), confirm: &tr, newline: c14s("\n"), protocol: c14i(4), binary: &tr, dir: &tr}
 	cfg := &c14WC{bufsize: c14i(10 << 20), timeout: c14i(20), protocol: c14i(4)}
 	switch kind {
-	case "refused":
+	case "refused", "refused-tunnel-claim":
 		act.confirm = c14b(false)
-		t.evs = append(t.evs, c14ev{kind: 'I', data: c14line("ACT", act.json(nil, false, nil), "\n")}, c14ev{kind: 'E', conf: false})
+		if kind == "refused-tunnel-claim" { // a client that reports a tunnel and declines: the flag is set, then must be cleared
+			act.tunnel = c14b(true)
+			t.tunnel = "claim"
+		}
+		t.evs = append(t.evs, c14ev{kind: 'I', data: c14line("ACT", act.json(nil, false, nil), "\n")},
+			c14ev{kind: 'A', tun: kind == "refused-tunnel-claim"}, c14ev{kind: 'E', conf: false})
 		// the server then prints its "Cancelled" message
 		t.evs = append(t.evs, c14ev{kind: 'O', data: []byte("\x1b8\x1b[0JCancelled\r\n")})
 		t.endKind = kind
@@ -1056,12 +1075,12 @@ func c14genTransfer(rng *rand.Rand, kind string, split bool) c14transfer {
 		t.endKind = kind
 		return t
 	case "badcfg":
-		t.evs = append(t.evs, c14ev{kind: 'I', data: c14line("ACT", act.json(nil, false, nil), "\n")},
+		t.evs = append(t.evs, c14ev{kind: 'I', data: c14line("ACT", act.json(nil, false, nil), "\n")}, c14ev{kind: 'A'},
 			c14ev{kind: 'O', data: c14line("CFG", []byte(`{"bufsize":"big"}`), "\n")}, c14ev{kind: 'E', conf: false})
 		t.endKind = kind
 		return t
 	}
-	t.evs = append(t.evs, c14ev{kind: 'I', data: c14line("ACT", act.json(nil, false, nil), "\n")},
+	t.evs = append(t.evs, c14ev{kind: 'I', data: c14line("ACT", act.json(nil, false, nil), "\n")}, c14ev{kind: 'A'},
 		c14ev{kind: 'O', data: c14line("CFG", cfg.json(nil, false, nil), "\n")}, c14ev{kind: 'E', conf: true})
 	// body: protocol lines in both directions, none with an end marker
 	for i, n := 0, rng.Intn(6); i < n; i++ {
@@ -1116,68 +1135,264 @@ func c14genTransfer(rng *rand.Rand, kind string, split bool) c14transfer {
 }
 
 var c14endKinds = []string{"success", "server-exit", "client-fail", "client-FAIL", "server-fail", "server-FAIL", "ctrlc", "ctrlc-twice",
-	"refused", "badact", "badcfg", "ctrlc-handshake"}
+	"refused", "badact", "badcfg", "ctrlc-handshake", "refused-tunnel-claim"}
 
-type c14seqResult struct {
-	traj   []string
-	probes []string // per transfer: how the NEXT trigger was seen ("r" rewritten, "w" raw, "?")
+// ---- a real loopback tunnel through the relay ----
+
+type c14tunnel struct {
+	cli, srv     net.Conn
+	atCli, atSrv chan []byte // complete lines read from the two tunnel connections
+	listener     net.Listener
 }
 
-// runs the events on one real relay; records status and forwarding per event.
-// While the relay is handshaking the chunks are parked and its status changes
-// asynchronously (the handshake goroutine), so the status is recorded as "_" there; it
-// is read again at the 'E' event, after the relay has left the handshake.
-func c14runSeq(evs []c14ev) []string {
+func c14linePump(conn net.Conn, ch chan []byte) {
+	var acc []byte
+	buf := make([]byte, 64*1024)
+	for {
+		n, err := conn.Read(buf)
+		acc = append(acc, buf[:n]...)
+		for {
+			i := bytes.IndexByte(acc, '\n')
+			if i < 0 {
+				break
+			}
+			ch <- append([]byte(nil), acc[:i+1]...)
+			acc = acc[i+1:]
+		}
+		if err != nil {
+			close(ch)
+			return
+		}
+	}
+}
+
+func (t *c14tunnel) close() {
+	if t == nil {
+		return
+	}
+	if t.listener != nil {
+		t.listener.Close()
+	}
+	for _, c := range []net.Conn{t.cli, t.srv} {
+		if c != nil {
+			c.Close()
+		}
+	}
+}
+
+var c14portRe = regexp.MustCompile(`::TRZSZ:TRANSFER:[SRD]:\d+\.\d+\.\d+:(\d+):(\d+)#R`)
+
+// the server side of a tunnel: listen, and answer the relay's hello
+func c14tunnelListen() (*c14tunnel, int) {
+	l, err := net.Listen("tcp", "127.0.0.1:0")
+	if err != nil {
+		return nil, 0
+	}
+	return &c14tunnel{listener: l}, l.Addr().(*net.TCPAddr).Port
+}
+
+// after the client has seen the relayed trigger: connect to the relay's port, hello both ways
+func (t *c14tunnel) connect(seen []byte, svrPort int) bool {
+	m := c14portRe.FindSubmatch(seen)
+	if m == nil {
+		return false
+	}
+	uid := string(m[1])
+	relayPort, _ := strconv.Atoi(string(m[2]))
+	if relayPort == 0 || relayPort == svrPort {
+		return false
+	}
+	accepted := make(chan net.Conn, 1)
+	go func() {
+		conn, err := t.listener.Accept()
+		if err != nil {
+			accepted <- nil
+			return
+		}
+		hello, reply := trzsz.VerifGetHelloConstant(uid, svrPort)
+		buf := make([]byte, 100)
+		conn.SetReadDeadline(time.Now().Add(c14wait))
+		n, _ := conn.Read(buf)
+		conn.SetReadDeadline(time.Time{})
+		if string(buf[:n]) != hello {
+			conn.Close()
+			accepted <- nil
+			return
+		}
+		conn.Write([]byte(reply))
+		accepted <- conn
+	}()
+	cli, err := net.DialTimeout("tcp", fmt.Sprintf("127.0.0.1:%d", relayPort), time.Second)
+	if err != nil {
+		return false
+	}
+	t.cli = cli
+	hello, reply := trzsz.VerifGetHelloConstant(uid, relayPort)
+	cli.Write([]byte(hello))
+	buf := make([]byte, 100)
+	cli.SetReadDeadline(time.Now().Add(c14wait))
+	n, _ := cli.Read(buf)
+	cli.SetReadDeadline(time.Time{})
+	if string(buf[:n]) != reply {
+		return false
+	}
+	select {
+	case t.srv = <-accepted:
+	case <-time.After(c14wait):
+	}
+	if t.srv == nil {
+		return false
+	}
+	t.atCli, t.atSrv = make(chan []byte, 1024), make(chan []byte, 1024)
+	go c14linePump(t.cli, t.atCli)
+	go c14linePump(t.srv, t.atSrv)
+	return true
+}
+
+type c14seqResult struct {
+	traj []string
+	acts []c14seenAct // every ACT line that reached the server (either channel), with the index of the event it answered
+	note string       // "" or why the sequence could not be run (no loopback)
+}
+
+type c14seenAct struct {
+	at  int
+	act *c14WA
+	raw bool // the client's own line arrived unchanged
+}
+
+// runs the events on one real relay; records status, tunnelConnected flag and forwarding
+// per event ("<status><flag><fwd>").  While the relay is handshaking and parks, its state
+// changes asynchronously (the handshake goroutine), so "__p" is recorded there; the state is
+// read again at the 'E' event, after the relay has left the handshake.
+func c14runSeq(evs []c14ev) c14seqResult {
 	g := c14newRig()
 	defer g.close()
-	var traj []string
+	var res c14seqResult
+	var tun *c14tunnel
+	defer func() { tun.close() }()
+	for _, e := range evs {
+		if e.kind == 'T' && e.tun {
+			g.relay.SetTunnelConnector(func(port int) net.Conn {
+				conn, err := net.DialTimeout("tcp", fmt.Sprintf("127.0.0.1:%d", port), time.Second)
+				if err != nil {
+					return nil
+				}
+				return conn
+			})
+			break
+		}
+	}
 	st := g.status()
+	fl := trzsz.VerifRelayTunnelConnected(g.relay)
+	pendingTun := false
+	idx := 0
 	// next chunk at one side that is either the chunk itself (forwarded raw), the rewritten
 	// trigger, or - while handshaking - the relay's own line; lines the relay produced
 	// itself earlier (FAIL, CFG, ACT) are skipped
-	next := func(ch chan []byte, e c14ev, parked bool) string {
+	next := func(ch chan []byte, e c14ev, parked bool, atServer bool) (string, []byte) {
 		deadline := time.Now().Add(c14wait)
 		for {
 			b := c14recv(ch, time.Until(deadline))
+			if atServer && b != nil {
+				if t, p, ok := c14decodeLine(b); ok && t == "ACT" {
+					if w, _ := c14parseWA(p); w != nil {
+						res.acts = append(res.acts, c14seenAct{idx, w, bytes.Equal(b, e.data)})
+					}
+				}
+			}
 			switch {
 			case b == nil:
-				return "p"
+				return "p", nil
 			case bytes.Equal(b, e.data):
-				return "w"
+				return "w", b
 			case e.kind == 'T' && bytes.Contains(b, []byte("#R")) && bytes.Contains(b, []byte(e.retag)):
-				return "r"
+				return "r", b
 			case parked:
-				return "p" // the relay answered the parked line with a line of its own
+				return "p", b // the relay answered the parked line with a line of its own
 			}
 		}
 	}
-	for _, e := range evs {
+	settle := func(wantSt int32, wantFl bool, d time.Duration) {
+		deadline := time.Now().Add(d)
+		for {
+			st, fl = g.status(), trzsz.VerifRelayTunnelConnected(g.relay)
+			if (st == wantSt && fl == wantFl) || time.Now().After(deadline) {
+				return
+			}
+			time.Sleep(200 * time.Microsecond)
+		}
+	}
+	for i, e := range evs {
+		idx = i
 		f := "?"
 		switch e.kind {
 		case 'I':
 			g.cliW.Write(e.data)
-			f = next(g.atSrv, e, st == 1)
-		case 'O', 'T':
+			f, _ = next(g.atSrv, e, st == 1, true)
+		case 'O':
 			g.srvW.Write(e.data)
-			f = next(g.atCli, e, st == 1)
+			f, _ = next(g.atCli, e, st == 1, false)
+		case 'T':
+			svrPort := 0
+			data := e.data
+			if e.tun {
+				tun.close()
+				tun, svrPort = c14tunnelListen()
+				if tun == nil {
+					res.note = "no-loopback"
+					return res
+				}
+				data = bytes.Replace(data, []byte(":0\r\n"), []byte(fmt.Sprintf(":%d\r\n", svrPort)), 1)
+				evs[i].data = data
+				e.data = data
+			}
+			g.srvW.Write(data)
+			var seen []byte
+			f, seen = next(g.atCli, e, st == 1, false)
+			if e.tun && f == "r" && !tun.connect(seen, svrPort) {
+				res.note = "tunnel-not-established"
+				return res
+			}
+		case 'U':
+			if tun == nil || tun.cli == nil {
+				res.note = "no-tunnel-for-U"
+				return res
+			}
+			tun.cli.Write(e.data)
+			f, _ = next(tun.atSrv, e, st == 1, true)
+		case 'V':
+			if tun == nil || tun.srv == nil {
+				res.note = "no-tunnel-for-V"
+				return res
+			}
+			tun.srv.Write(e.data)
+			f, _ = next(tun.atCli, e, st == 1, false)
+		case 'A':
+			pendingTun = e.tun
+			res.traj = append(res.traj, "__n")
+			continue
 		case 'E':
 			f = "n"
 			if st == 1 {
 				g.leaveHandshake(c14wait)
 			}
+			st = g.status()
+			settle(st, st == 2 && pendingTun, 300*time.Millisecond)
+			pendingTun = false
 		}
 		switch {
 		case e.kind == 'E':
-			st = g.status()
-			traj = append(traj, strconv.Itoa(int(st))+f)
-		case st == 1:
-			traj = append(traj, "_"+f)
+		case st == 1 && f == "p":
+			res.traj = append(res.traj, "__p")
+			continue
 		default:
-			st = g.settle(c14hint(st, e), 300*time.Millisecond)
-			traj = append(traj, strconv.Itoa(int(st))+f)
+			want := c14hint(st, e)
+			settle(want, fl && want != 0, 300*time.Millisecond)
 		}
+		res.traj = append(res.traj, fmt.Sprintf("%d%d%s", st, map[bool]int{false: 0, true: 1}[fl], f))
 	}
-	return traj
+	return res
 }
 
 func c14evArgs(evs []c14ev) string {
@@ -1246,15 +1461,92 @@ func (c *ctx) c14sequences() {
 		}
 		jobs = append(jobs, mk(kinds, splitAt))
 	}
-	trajs := make([][]string, len(jobs))
-	parallelDo(len(jobs), 16, func(i int) { trajs[i] = c14runSeq(jobs[i].evs) })
+	// tunnel transfers (a REAL loopback tunnel through the relay: trigger with the server's port,
+	// the client connects to the port the relay announces, ACT / CFG / end over the tunnel), each
+	// followed by plain transfers through the same relay instance
+	tunnelTransfer := func(kind string) c14transfer {
+		var t c14transfer
+		t.tunnel = "real"
+		trig, retag := c14trigger("RSD"[c.rng.Intn(3)])
+		t.evs = append(t.evs, c14ev{kind: 'T', data: trig, retag: retag, tun: true})
+		tr := true
+		act := &c14WA{lang: c14s("go"), version: c14s("1.1.8"), confirm: &tr, newline: c14s("\n"), protocol: c14i(4), binary: &tr, dir: &tr,
+			tunnel: &tr, fork: &tr}
+		cfg := &c14WC{bufsize: c14i(10 << 20), timeout: c14i(20), protocol: c14i(4), binary: &tr}
+		// (the ACT carries keys the relay does not know, so that its re-marshalled line differs from the
+		// client's own even when nothing is narrowed)
+		if kind == "tunnel-refused" {
+			act.confirm = c14b(false)
+			t.evs = append(t.evs, c14ev{kind: 'U', data: c14line("ACT", act.json(nil, true, nil), "\n")}, c14ev{kind: 'A', tun: true}, c14ev{kind: 'E'})
+			t.endKind = kind
+			return t
+		}
+		t.evs = append(t.evs, c14ev{kind: 'U', data: c14line("ACT", act.json(nil, true, nil), "\n")}, c14ev{kind: 'A', tun: true},
+			c14ev{kind: 'V', data: c14line("CFG", cfg.json(nil, false, nil), "\n")}, c14ev{kind: 'E', conf: true})
+		for i, n := 0, c.rng.Intn(4); i < n; i++ {
+			line := append(append([]byte("#DATA:"), c14b64ish(c.rng, 1+c.rng.Intn(60))...), '\n')
+			t.evs = append(t.evs, c14ev{kind: "UV"[c.rng.Intn(2)], data: line})
+		}
+		switch kind {
+		case "tunnel-success":
+			t.evs = append(t.evs, c14ev{kind: 'U', data: c14line("EXIT", []byte("Saved 1 file to /tmp"), "\n")})
+		case "tunnel-server-fail":
+			t.evs = append(t.evs, c14ev{kind: 'V', data: c14line("fail", []byte("disk full"), "\n")})
+		case "tunnel-client-FAIL":
+			t.evs = append(t.evs, c14ev{kind: 'U', data: c14line("FAIL", []byte("stopped"), "\n")})
+		case "tunnel-ctrlc": // typed on the terminal: arrives on the main channel
+			t.evs = append(t.evs, c14ev{kind: 'I', data: []byte{3}})
+		}
+		t.endKind = kind
+		return t
+	}
+	tunnelKinds := []string{"tunnel-success", "tunnel-server-fail", "tunnel-client-FAIL", "tunnel-ctrlc", "tunnel-refused"}
+	plainKinds := []string{"success", "server-exit", "client-fail", "ctrlc", "refused", "badcfg"}
+	mkTunnel := func(shape []string) job {
+		var j job
+		for _, k := range shape {
+			var t c14transfer
+			if strings.HasPrefix(k, "tunnel-") {
+				t = tunnelTransfer(k)
+			} else {
+				t = c14genTransfer(c.rng, k, false)
+			}
+			j.trs = append(j.trs, t)
+			j.evs = append(j.evs, t.evs...)
+		}
+		probe, retag := c14trigger('S')
+		j.evs = append(j.evs, c14ev{kind: 'T', data: probe, retag: retag})
+		j.trs = append(j.trs, c14transfer{evs: j.evs[len(j.evs)-1:]})
+		j.desc = strings.Join(shape, "+")
+		return j
+	}
+	for _, tk := range tunnelKinds {
+		jobs = append(jobs, mkTunnel([]string{tk, "success"}))
+	}
+	for i, n := 0, c.pick(30, 400); i < n; i++ {
+		var shape []string
+		for k, m := 0, 2+c.rng.Intn(3); k < m; k++ {
+			if k == 0 && c.rng.Intn(3) > 0 || c.rng.Intn(3) == 0 {
+				shape = append(shape, tunnelKinds[c.rng.Intn(len(tunnelKinds))])
+			} else {
+				shape = append(shape, plainKinds[c.rng.Intn(len(plainKinds))])
+			}
+		}
+		jobs = append(jobs, mkTunnel(shape))
+	}
+	results := make([]c14seqResult, len(jobs))
+	parallelDo(len(jobs), 16, func(i int) { results[i] = c14runSeq(jobs[i].evs) })
 	for ji, j := range jobs {
-		traj := trajs[ji]
+		if results[ji].note != "" {
+			c.count("seq:skipped:" + results[ji].note)
+			continue
+		}
+		traj := results[ji].traj
 		c.emit(true, "run", strings.Join(traj, ","), c14evArgs(j.evs))
 		c.count("seq:transfers=" + strconv.Itoa(len(j.trs)))
 		if j.desc == "known-split" {
 			last := traj[len(traj)-1]
-			if last != "1r" {
+			if last != "10r" {
 				c.violate("relay-split-exit-marker", "the client's #EXIT: line was read by the relay in two pieces (\"#EX\" + \"IT:...\"): the relay stays in "+
 					"transferring, and the next trigger from the server reaches the client raw (no #R suffix, no 00->20 re-tag) — the relay has stopped narrowing",
 					"events="+c14evArgs(j.evs)+" trajectory="+strings.Join(traj, ","))
@@ -1263,25 +1555,84 @@ func (c *ctx) c14sequences() {
 			}
 			continue
 		}
-		// DIRECT ORACLE: after every transfer that ended (at stream level), the next trigger is recognised
-		pos := 0
+		detail := "sequence=" + j.desc + " events=" + c14evArgs(j.evs) + " trajectory=" + strings.Join(traj, ",")
+		// which transfers before event i used / claimed a tunnel
+		startOf := make([]int, len(j.trs)+1)
 		for ti, t := range j.trs {
-			first := traj[pos]
-			if ti > 0 {
-				prev := j.trs[ti-1]
-				c.count("seq:end=" + prev.endKind + map[bool]string{true: "/split", false: ""}[prev.split])
-				if first != "1r" && prev.endKind != "" {
-					if prev.split {
-						c.violate("relay-split-exit-marker", "an end-of-transfer marker read by the relay in two pieces leaves it in transferring; the next trigger passes raw",
-							"end="+prev.endKind+" events="+c14evArgs(j.evs)+" trajectory="+strings.Join(traj, ","))
-					} else {
-						c.violate("relay-not-recovered:"+prev.endKind, "after a transfer that ended ("+prev.endKind+") the relay did not recognise the next trigger",
-							"events="+c14evArgs(j.evs)+" trajectory="+strings.Join(traj, ","))
-					}
-					break // later transfers of this sequence start from a stuck relay
+			startOf[ti+1] = startOf[ti] + len(t.evs)
+		}
+		after := func(ti int) string { // suffix of the keys for what happens in / after transfer ti
+			sfx := ""
+			for k := 0; k < ti; k++ {
+				if j.trs[k].tunnel == "real" {
+					return ":after-tunnel-transfer"
+				}
+				if j.trs[k].tunnel == "claim" {
+					sfx = ":after-tunnel-claim"
 				}
 			}
-			pos += len(t.evs)
+			return sfx
+		}
+		transferOf := func(ev int) int {
+			for ti := range j.trs {
+				if ev < startOf[ti+1] {
+					return ti
+				}
+			}
+			return len(j.trs) - 1
+		}
+		// DIRECT ORACLE: no ACT offering binary without the tunnel reaches the server, whatever went before
+		stuckFrom := len(j.trs) // transfers after one whose end marker was split start from a stuck relay (the known finding)
+		for ti, t := range j.trs {
+			if t.split {
+				stuckFrom = ti
+				break
+			}
+		}
+		for _, a := range results[ji].acts {
+			ti := transferOf(a.at)
+			if ti > stuckFrom {
+				continue
+			}
+			if c14val(a.act.binary, true) && !c14val(a.act.tunnel, false) {
+				c.violate("relay-binary-without-tunnel"+after(ti), "in a sequence of transfers through one relay an ACT offering binary mode without a tunnel reached the server"+
+					map[bool]string{true: " (the client's own line, not parked by the relay)", false: ""}[a.raw], "act="+a.act.canon()+" "+detail)
+			}
+			if a.raw {
+				c.violate("relay-act-not-parked"+after(ti), "the client's ACT reached the server as it was sent: the relay did not park and rewrite it", "act="+a.act.canon()+" "+detail)
+			}
+		}
+		// DIRECT ORACLE: every transfer that ended (at stream level) leaves the relay in standby with the
+		// tunnel flag cleared, and the next trigger is recognised
+		for ti, t := range j.trs {
+			if ti == 0 {
+				continue
+			}
+			prev := j.trs[ti-1]
+			c.count("seq:end=" + prev.endKind + map[bool]string{true: "/split", false: ""}[prev.split])
+			lastOfPrev, first := traj[startOf[ti]-1], traj[startOf[ti]]
+			_ = t
+			if prev.endKind == "" {
+				continue
+			}
+			if prev.split {
+				if first != "10r" {
+					c.violate("relay-split-exit-marker", "an end-of-transfer marker read by the relay in two pieces leaves it in transferring; the next trigger passes raw",
+						"end="+prev.endKind+" "+detail)
+					break
+				}
+				continue
+			}
+			if !strings.HasPrefix(lastOfPrev, "0") || !strings.HasPrefix(first, "1") || !strings.HasSuffix(first, "r") {
+				c.violate("relay-not-recovered:"+prev.endKind+after(ti), "after a transfer that ended ("+prev.endKind+") the relay was not in standby or did not recognise the next trigger",
+					detail)
+				break // later transfers of this sequence start from a stuck relay
+			}
+			if lastOfPrev[1] != '0' || first[1] != '0' {
+				c.violate("relay-tunnel-flag-stale:"+prev.endKind+after(ti), "after a transfer that ended ("+prev.endKind+") the relay is in standby but still believes the tunnel is connected",
+					detail)
+				break
+			}
 		}
 	}
 }
